@@ -1175,6 +1175,11 @@ func TranslateFn(w *World, fn *ssa.Function) *FnVC {
 		for _, a := range f.anchors {
 			present[a] = true
 		}
+		for _, li := range f.loops {
+			if li != nil {
+				present[fmt.Sprintf("loopexit#%d", li.ord)] = true
+			}
+		}
 		var missing []string
 		for a := range f.c.At {
 			if !present[a] {
@@ -1278,6 +1283,7 @@ func (f *fnTrans) block(b *ssa.BasicBlock) {
 			f.mergeStates(b, preds, conds)
 		}
 	}
+	f.loopExitAnchors(b)
 	for _, ins := range b.Instrs {
 		f.instr(ins)
 	}
@@ -1908,10 +1914,6 @@ func (f *fnTrans) atAnchor(ins ssa.Instruction) {
 	if !ok {
 		return
 	}
-	cls := f.c.At[a]
-	if len(cls) == 0 {
-		return
-	}
 	extra := map[string]TV{}
 	if call, ok := ins.(*ssa.Call); ok {
 		// the results of the call this clause is attached to
@@ -1924,6 +1926,36 @@ func (f *fnTrans) atAnchor(ins ssa.Instruction) {
 			extra[resName(0)] = TV{v, rs.At(0).Type()}
 		}
 	}
+	f.evalAt(a, ins.Pos(), extra)
+}
+
+// loopExitAnchors: block b is entered when loop k is left through its header: clauses attached
+// to "loopexit#k" are evaluated in the state at the start of b.
+func (f *fnTrans) loopExitAnchors(b *ssa.BasicBlock) {
+	if f.c == nil || f.c.At == nil {
+		return
+	}
+	for hdr, li := range f.loops {
+		if li == nil || li.body[b] {
+			continue
+		}
+		for _, s := range hdr.Succs {
+			if s == b {
+				pos := token.NoPos
+				if len(b.Instrs) > 0 {
+					pos = b.Instrs[0].Pos()
+				}
+				f.evalAt(fmt.Sprintf("loopexit#%d", li.ord), pos, nil)
+			}
+		}
+	}
+}
+
+func (f *fnTrans) evalAt(a string, pos token.Pos, extra map[string]TV) {
+	cls := f.c.At[a]
+	if len(cls) == 0 {
+		return
+	}
 	env := f.env(f.curB, f.cur, extra)
 	for k, cl := range cls {
 		if cl.Kind == "ghostset" {
@@ -1935,7 +1967,7 @@ func (f *fnTrans) atAnchor(ins ssa.Instruction) {
 		t, err := env.EvalBool(cl.Expr)
 		if err != nil {
 			if cl.Kind != "assume" && strings.Contains(err.Error(), "unknown identifier") {
-				o := f.oblige("lemma", fmt.Sprintf("at %s: %s  [cannot be stated on this code: %v]", a, cl.Src, err), ins.Pos(), f.propsOf(cl), f.here(), False)
+				o := f.oblige("lemma", fmt.Sprintf("at %s: %s  [cannot be stated on this code: %v]", a, cl.Src, err), pos, f.propsOf(cl), f.here(), False)
 				o.Name = fmt.Sprintf("%s/at:%s/lemma%d", f.name, a, k)
 				continue
 			}
@@ -1947,7 +1979,7 @@ func (f *fnTrans) atAnchor(ins ssa.Instruction) {
 			f.noteAssumed(fmt.Sprintf("assume at %s in %s: %s", a, f.name, cl.Src))
 			continue
 		}
-		o := f.oblige("lemma", fmt.Sprintf("at %s: %s", a, cl.Src), ins.Pos(), f.propsOf(cl), f.here(), t)
+		o := f.oblige("lemma", fmt.Sprintf("at %s: %s", a, cl.Src), pos, f.propsOf(cl), f.here(), t)
 		o.Name = fmt.Sprintf("%s/at:%s/lemma%d", f.name, a, k)
 		f.factOb(f.here(), t)
 	}
